@@ -19,6 +19,7 @@ type Env struct {
 	pkg   string
 	depth int
 	loopEntry *Env // state at the moment the loop was entered, for atEntry(...)
+	iter      *Val // index of the iteration that just ran (back-edge obligations of counting / range loops)
 	loopHead  *Env // state at the head of the current iteration, for atHead(...) (back-edge obligations only)
 	side  *[]string // side facts produced while translating (e.g. axioms of s_sub terms)
 	seen  func(k string) string // membership in the delivered-key set of the (single) live map iterator
@@ -409,6 +410,11 @@ func (e *Env) call(x *ast.CallExpr) Val {
 			e.fail(x, "atEntry() is only available in loop invariants")
 		}
 		return e.loopEntry.exprWithInfo(x.Args[0], e)
+	case "iter":
+		if e.iter == nil {
+			e.fail(x, "iter() is only available in obligations checked at the back edge of a range loop or a counting loop")
+		}
+		return *e.iter
 	case "atHead":
 		if e.loopHead == nil {
 			e.fail(x, "atHead() is only available in obligations checked at a loop's back edge (each / invariant step)")
